@@ -117,6 +117,50 @@ def check_alignment(cols, nseq):
             m = sum(1 for c in cols_sym if c[a] == c[b] and c[a] != "-")
             if abs(pw[a, b] - m / L) > 1e-12:
                 return "pairwise identity"
+    # every mode of both functions, also on alignments whose trace omits part of the sequences (column slices):
+    # "shortest" is defined over the length of the SEQUENCES, not over the aligned part
+    for lo, hi in ((0, L), (1, L), (0, L - 1)):
+        if hi - lo < 1:
+            continue
+        sub, csub = aln[lo:hi], cols_sym[lo:hi]
+        subtrace = trace[lo:hi]
+        if any(all(r[s] == -1 for r in subtrace) for s in range(nseq)):
+            continue
+        for mode in ("all", "not_terminal", "shortest"):
+            for a in range(nseq):
+                for b in range(nseq):
+                    m = sum(1 for c in csub if c[a] == c[b] and c[a] != "-")
+                    if mode == "all":
+                        den = hi - lo
+                    elif mode == "shortest":
+                        den = min(len(seqs[a]), len(seqs[b]))
+                    else:
+                        fa = [i for i, r in enumerate(subtrace) if r[a] != -1]
+                        fb = [i for i, r in enumerate(subtrace) if r[b] != -1]
+                        den = min(fa[-1], fb[-1]) + 1 - max(fa[0], fb[0])
+                    try:
+                        got = get_pairwise_sequence_identity(sub, mode)[a, b]
+                    except ValueError:
+                        if mode == "not_terminal" and any(
+                                min(max(i for i, r in enumerate(subtrace) if r[x] != -1),
+                                    max(i for i, r in enumerate(subtrace) if r[y] != -1)) + 1
+                                <= max(min(i for i, r in enumerate(subtrace) if r[x] != -1),
+                                       min(i for i, r in enumerate(subtrace) if r[y] != -1))
+                                for x in range(nseq) for y in range(nseq)):
+                            break          # documented refusal: some pair has no overlap
+                        return f"pairwise identity({mode}) refused on columns {lo}:{hi}"
+                    if den <= 0:
+                        return f"pairwise identity({mode}) answered {got} for a pair without overlap"
+                    if abs(got - m / den) > 1e-12:
+                        return f"pairwise identity({mode}) on columns {lo}:{hi} of {gapped}: {got} vs {m}/{den}"
+                else:
+                    continue
+                break
+            if nseq == 2 and mode != "not_terminal":
+                m = sum(1 for c in csub if c[0] == c[1] and c[0] != "-")
+                den = hi - lo if mode == "all" else min(len(seqs[0]), len(seqs[1]))
+                if abs(get_sequence_identity(sub, mode) - m / den) > 1e-12:
+                    return f"identity({mode}) on columns {lo}:{hi}"
     # score: column-by-column recomputation
     mat = SubstitutionMatrix.std_nucleotide_matrix()
     sm = mat.score_matrix()
